@@ -1,0 +1,17 @@
+//go:build verif
+// +build verif
+
+package cache
+
+// Verification hooks (only with -tags verif): the RTP payload classifiers of
+// the GOP caches, so a harness can compare them with their model (C07).
+
+// VerifClassifyH264 runs H264Cache.getPalyloadType on a payload.
+func VerifClassifyH264(payload []byte) (sps, pps, key bool) {
+	return (&H264Cache{}).getPalyloadType(payload)
+}
+
+// VerifClassifyHevc runs HevcCache.getPalyloadType on a payload.
+func VerifClassifyHevc(payload []byte) (vps, sps, pps, key bool) {
+	return (&HevcCache{}).getPalyloadType(payload)
+}
